@@ -1,6 +1,7 @@
 package props
 
 import (
+	"context"
 	"fmt"
 	"html/template"
 	"strings"
@@ -460,6 +461,34 @@ func c16Special(t *engine.T) {
 		struct{ name, src, want string }{"ignored parameters around named ones", `<% let f = fn(_, a, _, b) { return a + b } %><%= f(1, 20, 3, 400) %>`, "420"},
 		struct{ name, src, want string }{"one ignored parameter", `<% let f = fn(_, x) { return x } %><%= f(1, 2) %>`, "2"},
 	)
+	// a parameter may be spelled _ like any other name: the body reads its argument under that name
+	cases = append(cases,
+		struct{ name, src, want string }{"parameter named _ read in the body", `<% let f = fn(_) { return _ } %><%= f(5) %>|<%= f("s") %>`, "5|s"},
+		struct{ name, src, want string }{"parameter named _ decides a branch", `<% let pick = fn(_, b) { if (_ == "a") { return b } return "other" } %><%= pick("a", "hit") %>|<%= pick("z", "hit") %>`, "hit|other"},
+		struct{ name, src, want string }{"parameter named _ inside a loop whose key is _ too", `<% let f = fn(_) { return _ } %><%= for (x) in [10, 20] { %><%= f("arg") %><%= _ %>,<% } %>`, "arg0,arg1,"},
+		struct{ name, src, want string }{"parameters _ and _0", `<% let f = fn(_, _0) { return _ + _0 } %><%= f("a", "b") %>`, "ab"},
+	)
+	// names answered by a Go context the root context wraps are the caller's scope too: readable inside function
+	// bodies, in arguments of calls made there, through recursion and through functions passed as parameters
+	for _, c := range []struct{ src, want string }{
+		{`<% let f = fn(n) { if (role == "admin") { return n * 2 } return n } %><%= f(21) %>`, "42"},
+		{`<% let g = fn(r) { return r } %><% let f = fn() { return g(role) } %><%= f() %>|<%= g(role) %>`, "admin|admin"},
+		{`<% let down = fn(n) { if (n == 0) { return role } return down(n - 1) } %><%= down(3) %>`, "admin"},
+		{`<% let ap = fn(h, x) { return h(x) } %><% let tag = fn(x) { return x + ":" + role } %><%= ap(tag, "u") %>`, "u:admin"},
+		{`<% let f = fn(role) { return role } %><%= f("param") %>|<%= role %>`, "param|admin"},
+		{`<%= for (i) in [1] { %><% let f = fn() { return role + limit } %><%= f() %><% } %>`, "admin7"},
+	} {
+		c := c
+		t.Case("special wrapped Go context "+q(c.src), true, func() (string, *engine.Fail) {
+			plush.CacheEnabled = false
+			ctx := plush.NewContextWithContext(context.WithValue(context.WithValue(context.Background(), "role", "admin"), "limit", 7))
+			out, err := plush.Render(c.src, ctx)
+			if err != nil || out != c.want {
+				return "", engine.Failf("mismatch", "expected %q, got %q / %v", c.want, out, err)
+			}
+			return "match", nil
+		})
+	}
 	// a name that repeats in the parameter list: the call is refused or binds the name to one of the arguments
 	// given for it - the arity stays what was written
 	for _, src := range []string{`<% let f = fn(a, a) { return a } %><%= f(1, 2) %>`, `<% let f = fn(a, b, a) { return a + b } %><%= f(1, 20, 300) %>`} {
